@@ -11,7 +11,7 @@ from .common import close as plain_close
 from .unitterms_common import (A, Dv, K, M, Mono, P, S, atoms_of, build, catalogue, depth, dimvec, lcm, mono, mono_dimvec, mono_scale,
                                numeric_coefficient, positive_scale, root_degree, tid)
 from .unitterms_common import mclose as close
-from .unitterms_common import RATIO_PAIRS, eval_expr, table_unit
+from .unitterms_common import RATIO_PAIRS, eval_expr, exponent_value, fstr, table_unit
 
 LEVEL = "other"
 F = Fraction
@@ -36,7 +36,13 @@ MANIFEST = dict(
           "the prefix base} up to length 2/3 (4 sampled) runs on that name; then 12 spellings of the bare name (incl. utf-8 bytes) are read from the cache the "
           "history left and from an empty one: one outcome, one unit, identical expression/hash, the reading an independent reference model of the table gives "
           "(row, else prefix + prefixable row; for a row under a documented alternative spelling: that row or the documented unit, the same everywhere), and 13 "
-          "arithmetic results on the unit from the bare string and from a compound spelling are printed and re-read warm and cold. NOT covered "
+          "arithmetic results on the unit from the bare string and from a compound spelling are printed and re-read warm and cold. "
+          "THE EXPONENT OBJECT (C20/powform): base term x exponent x the Python object it arrives as (Fraction/int, float, numpy float64/float32/int64, decimals cut "
+          "after 7 and 8 places, sympy Rational/Float, str, Decimal) x route (Unit ** e, quantity ** e, np.power, np.sqrt/cbrt/square/reciprocal on a quantity with "
+          "symbolic payload): the unit must have the oracle's scale for the exponent it PRINTS and re-read to an equal unit for all scales. ARITHMETIC AFTER A "
+          "COEFFICIENT (C20/coefop): origin of the numeric coefficient (integer-valued quantity, float quantity, string with integer / rational / decimal factor, bare "
+          "sympy expression, simplify() of same-dimension factors) x value x 14 following operations (roots, powers, products, quotients, root-of-product, "
+          "root x root), then print and re-read. NOT covered "
           "(not applicable to this technique): totality of the parser on arbitrary strings and rejection of malformed input."),
     design="DESIGN.md section 4 C20",
     technique="symbolic execution of the real Python code over z3 real terms (strings concrete); SMT obligations per path; counterexample replay")
@@ -61,12 +67,16 @@ EXPLANATION = (
     "spellings s of the bare name - first without touching the cache, then from an empty cache - and z3 decides that each result has the scale/offset the harness' "
     "reference model of the table (_Rows: alternative spelling -> canonical name, row, else prefix x prefixable row) gives, for all scales; the units obtained from the "
     "bare string and from '1*name' go through **2, **-1, **0.5, /xc, xa*, (a*xc)/xc, (a**2)**0.5, *1, **1, xc**2/a**(3/2) and str()/repr() of each result is re-read "
-    "warm and cold against the result."
+    "warm and cold against the result. powform/coefop: the same round-trip obligations (make_rt_case) on terms whose outermost power gets its exponent in every "
+    "accepted Python type (an exponent the library does not snap consistently leaves an uninterpreted pow(scale, e) term in the unit's scale: z3 then "
+    "finds scales for which Unit.__eq__'s isclose fails and the replay on the plain library confirms), and on terms that apply further arithmetic to a unit "
+    "that already carries an integer / rational / float coefficient, so that irrational numeric factors (sqrt(2), 2**(1/3), sqrt(10)/2) appear in the printed text."
 )
 BOUNDS = {
     "quick": "atoms {xa, xb, kxa, %, ohm-sign, angstrom-sign, micro-m}; all 196 terms of depth <= 1, 200 seeded of depth 2, 200 of depth 3 (root degree <= 36), each "
              "printed with str and repr and re-read from text and utf-8 bytes; 316 terms also written as strings in 4 surface syntaxes and compared with the "
-             "arithmetic result; 120 simplify() terms over table/percent atoms + one symbolic atom; 138 simplify() terms over 22 same-dimension table pairs of non-integer and whole ratio (a/b, b/a, a/b*c, a**2/b, c/(a/b), a/b*ohm and compounds); 9 coefficients x 12 terms; 10 groups of offset / "
+             "arithmetic result; 120 simplify() terms over table/percent atoms + one symbolic atom; 138 simplify() terms over 22 same-dimension table pairs of non-integer and whole ratio (a/b, b/a, a/b*c, a**2/b, c/(a/b), a/b*ohm and compounds); 9 coefficients x 12 terms; powform: 3 base terms x 8 exponents x 11 exponent objects on Unit ** e (252) + 2 bases x 6 exponents x {quantity ** e, np.power} x 4 objects "
+             "+ np.sqrt/cbrt/square/reciprocal (103); coefop: 35 coefficient origins/values on xa x 8-14 following operations + 4 simplify() origins x 14 (400); 10 groups of offset / "
              "logarithmic / temperature-difference / angle / bare-1 units (78 units); 42 spelling groups (~205 spellings), both tables once more after add+modify+remove of "
              "unrelated symbols; histories: 31 terms (17 with oracle scale incl. simplify()/coefficient terms, 14 offset/log/angle/bare) x all 11 one-step histories in a fresh "
              "registry, 17 two-step (all 9 ordered pairs of add/modify/remove + 8 mixed) and 12 three-step histories (all 6 orders of add, modify, remove + 6 mixed) x 2 rotating terms, "
@@ -76,7 +86,8 @@ BOUNDS = {
              "history over {r, o, A, M, X, B} of length <= 2 ending in an edit (plain add); every history of length 3 with one name per class; add prefixable / with offset / "
              "define_unit: every history of length <= 2 containing an add, one name per class and form (k+name observed too for prefixable rows); default registry: every "
              "history over {r, o, A} of length <= 3, one name per class and form (638 cases); per case 12 spellings x warm/cold cache and 13 arithmetic results x str/repr x warm/cold",
-    "thorough": "same atoms; 1500 seeded terms of depth 2, 1500 of depth 3; 1396 terms in 4 surface syntaxes; 600 simplify() terms; 9 coefficients x 60 terms; special and "
+    "thorough": "same atoms; 1500 seeded terms of depth 2, 1500 of depth 3; 1396 terms in 4 surface syntaxes; 600 simplify() terms; 9 coefficients x 60 terms; powform: 7 base terms x 15 exponents x 11 objects, 5 bases x 15 exponents x 3 routes x 5 objects; coefop: 3 base terms per origin, "
+                "all 14 operations; special and "
                 "spelling tables as in quick; every table symbol and every SI-prefixed prefixable symbol alone and to the powers -1, 2, 1/2 over a symbolic xc (ground scales); "
                 "histories as in quick with 8 rotating terms per multi-step history in the fresh registry and 4 per history in the three other registry configurations (1053 cases); "
                 "names: every history of length <= 3 for all 27 names (plain add) and for three names per class in the three other forms, a seeded sample of 150 "
@@ -206,7 +217,22 @@ def roundtrip(ctx, tag, u, reg, want=None, want_dims=None, observe=True, bare_id
         ctx.require(f"{tag}: the bare-1 unit re-reads to the identical expression, hash and print", all(bare_same), printed=str(u))
 
 
-def make_rt_case(t, family="rt", idx=None):
+def _via_quantity(ctx, t, env, reg, via):
+    """the outermost power of the term taken on a QUANTITY in the base unit (symbolic payload); the unit is read off the result"""
+    import numpy as np
+    base = build(t[1], env, ctx.mods, reg)
+    e = exponent_value(t[2], t[3])
+    q = ctx.quantity(ctx.real("pay", pos=True), base, reg)
+    if via == "q**e":
+        return (q ** e).units
+    if via == "np.power(q,e)":
+        return np.power(q, e).units
+    if via == "np.sqrt(q)":
+        return {F(1, 2): np.sqrt, F(1, 3): np.cbrt, F(2): np.square, F(-1): np.reciprocal}[t[2]](q).units
+    raise KeyError(via)
+
+
+def make_rt_case(t, family="rt", idx=None, cid=None, via=None):
     N = root_degree(t)
 
     names = sorted(atoms_of(t))
@@ -214,7 +240,7 @@ def make_rt_case(t, family="rt", idx=None):
     def h(ctx):
         reg, env, scale_of, dimvec_of = make_env(ctx, N=N, extra=names)
         m = mono_expand(t)
-        u = build(t, env, ctx.mods, reg)
+        u = build(t, env, ctx.mods, reg) if via is None else _via_quantity(ctx, t, env, reg, via)
         want, wd = mono_scale(m, scale_of), mono_dimvec(m, dimvec_of)
         ctx.require("built unit has the oracle's scale and dimension", And(close(u.base_value, want), dimvec(u.dimensions) == wd))
 
@@ -226,8 +252,78 @@ def make_rt_case(t, family="rt", idx=None):
         ctx.require("the expression that will be printed (numeric coefficient x remaining units) denotes the built unit's scale and dimension",
                     And(close(es, want), ed == wd), expr=repr(u))
         roundtrip(ctx, "round trip", u, reg, want, wd)
-    cid = f"C20/{family}/d{depth(t)}/{tid(t)}" if idx is None else f"C20/{family}/{idx:03d}/{tid(t)}"
+    if cid is None:
+        cid = f"C20/{family}/d{depth(t)}/{tid(t)}" if idx is None else f"C20/{family}/{idx:03d}/{tid(t)}"
     return Case(cid, h, group=family)
+
+
+# ----------------------------------------------------------------------------- the exponent handed to ** : one rational, many clothes
+#
+# Unit.__pow__ accepts whatever Rational(str(p)) accepts and snaps it to the nearest simple fraction; expression, dimensions and
+# scale must all be raised to that ONE exponent, else the unit prints an exponent its scale does not have. Axis: base term x
+# exponent x the Python object the exponent arrives as x the route (Unit ** e, quantity ** e, np.power, np.sqrt/cbrt/square/reciprocal).
+
+POW_FORMS = ["frac", "float", "npfloat", "sympy", "str", "f32", "dec7", "dec8", "sfloat", "npint", "decimal"]
+POW_EXPS = [F(1, 3), F(2, 3), F(-1, 3), F(1, 7), F(3, 2), F(1, 2), F(2), F(-1), F(-1, 2), F(1, 6), F(5, 3), F(1, 9), F(1, 10), F(-3), F(4, 3)]
+POW_BASES = [A("xa"), A("μm"), Dv(A("xa"), P(A("xc"), 2)), A("kxa"), M(A("xa"), A("xb")), P(A("xb"), F(1, 2)), K(1000, A("xa"), "strint")]
+POW_VIAS = ["q**e", "np.power(q,e)", "np.sqrt(q)"]
+
+
+def powform_cases(quick):
+    out = []
+    bases = POW_BASES[:3] if quick else POW_BASES
+    exps = POW_EXPS[:8] if quick else POW_EXPS
+    for b in bases:
+        for p in exps:
+            for form in POW_FORMS:
+                if form == "npint" and p.denominator != 1:
+                    continue
+                t = P(b, p, form)
+                if root_degree(t) <= 36:
+                    out.append(make_rt_case(t, "powform", cid=f"C20/powform/u**e/{form}/{tid(P(b, p))}"))
+    for b in bases[:2] if quick else bases[:5]:
+        for p in exps[:6] if quick else exps:
+            for via in POW_VIAS:
+                forms = ["float"] if via == "np.sqrt(q)" else (["float", "f32", "dec7", "npfloat"] if quick else ["float", "f32", "dec7", "npfloat", "dec8"])
+                if via == "np.sqrt(q)" and p not in (F(1, 2), F(1, 3), F(2), F(-1)):
+                    continue
+                for form in forms:
+                    t = P(b, p, form)
+                    out.append(make_rt_case(t, "powform", cid=f"C20/powform/{via}/{form}/{tid(P(b, p))}", via=via))
+    return out
+
+
+# ----------------------------------------------------------------------------- arithmetic AFTER the unit got a numeric coefficient
+#
+# A numeric coefficient comes from a quantity handed to Unit(), from a string ("2*xa", "5*xa/2", "2.5*xa"), from a bare sympy
+# expression, or from simplify() on same-dimension factors. The families above print such a unit as it is; here it first goes through
+# further unit arithmetic - roots turn an integer/rational coefficient into an irrational numeric factor (sqrt(2)*sqrt(xa)), products
+# merge coefficients - and only then is printed and re-read. Axis: origin of the coefficient x its value x the operation that follows.
+
+COEF_SPECS = [(c, k) for c in (2, 3, 10, 1000, 4, 8) for k in ("qint", "strint", "exprrat")] + \
+             [(c, k) for c in (F(5, 2), F(1, 3), F(2, 3), F(1, 8), F(9, 4)) for k in ("strrat", "exprrat")] + \
+             [(c, k) for c in (2.5, 1e-7, 2.0) for k in ("qfloat", "strfloat")]
+COEF_SIMP = [S(Dv(P(A("m"), 2), A("cm"))), S(M(Dv(A("km"), A("cm")), A("xb"))), S(M(Dv(A("mile"), A("km")), A("xb"))), S(Dv(M(A("yr"), A("xb")), A("day")))]
+COEF_OPS = [("^1|2", lambda k: P(k, F(1, 2))), ("^1|3", lambda k: P(k, F(1, 3))), ("^-1|2", lambda k: P(k, F(-1, 2))), ("^3|2", lambda k: P(k, F(3, 2))),
+            ("^2", lambda k: P(k, 2)), ("^-1", lambda k: P(k, -1)), ("*xc", lambda k: M(k, A("xc"))), ("xc:", lambda k: Dv(A("xc"), k)),
+            ("(*xc)^1|2", lambda k: P(M(k, A("xc")), F(1, 2))), ("^1|2*^1|2", lambda k: M(P(k, F(1, 2)), P(k, F(1, 2)))),
+            ("^1|2float", lambda k: P(k, F(1, 2), "float")), ("^2|3", lambda k: P(k, F(2, 3))), ("(^1|2)^3", lambda k: P(P(k, F(1, 2)), 3)),
+            ("^1|2:xc", lambda k: Dv(P(k, F(1, 2)), A("xc")))]
+
+
+def coefop_cases(quick):
+    out = []
+    for j, (c, kind) in enumerate(COEF_SPECS):
+        bases = [A("xa")] if quick else [A("xa"), Dv(A("xa"), A("xb")), A("μm")]
+        for b in bases:
+            k = K(c, b, kind)
+            ops = COEF_OPS if not quick else (COEF_OPS[:8] if j % 3 else COEF_OPS)
+            for name, f in ops:
+                out.append(make_rt_case(f(k), "coefop", cid=f"C20/coefop/{kind}/{fstr(F(c).limit_denominator(10**9)) if not isinstance(c, float) else repr(c)}x{tid(b)}/{name}"))
+    for k in COEF_SIMP:
+        for name, f in COEF_OPS:
+            out.append(make_rt_case(f(k), "coefop", cid=f"C20/coefop/simplify/{tid(k)}/{name}"))
+    return out
 
 
 # ----------------------------------------------------------------------------- strings written by a grammar vs the same term built by arithmetic
@@ -1149,6 +1245,8 @@ def cases(tier, mods):
         for c in COEFS:
             out.append(make_rt_case(K(c, t), "rtcoef", i))
             i += 1
+    out.extend(powform_cases(quick))
+    out.extend(coefop_cases(quick))
     for kind, terms in special_terms().items():
         out.append(make_special_case(kind, terms))
     for i, (identical, group) in enumerate(SPELL):
